@@ -57,7 +57,7 @@ func stripHints(b []byte) []byte {
 }
 
 func isIDStart(c byte) bool {
-	return c == '_' || c == '$' || (c >= 'a' && c <= 'z') || (c >= 'A' && c <= 'Z')
+	return c == '_' || c == '$' || (c >= 'a' && c <= 'z') || (c >= 'A' && c <= 'Z') || c >= 0x80
 }
 func isDigit(c byte) bool { return c >= '0' && c <= '9' }
 
